@@ -78,6 +78,7 @@ type ReplayFile struct {
 	Site     string    `json:"site,omitempty"`
 	Model    []DrawVal `json:"model"`
 	Observe  []DrawVal `json:"observe,omitempty"`
+	Hooks    []string  `json:"hooks,omitempty"`
 }
 
 type job struct {
@@ -96,7 +97,7 @@ func readJSON(path string, v interface{}) error {
 
 // buildOverlay collects, for every package directory that has harness files, the harness
 // sources and the generated shim, as virtual files inside the repository tree.
-func buildOverlay(pkgs []string) (map[string][]byte, error) {
+func buildOverlay(pkgs []string, hooks []string) (map[string][]byte, error) {
 	ov := map[string][]byte{}
 	tmpl, err := os.ReadFile(filepath.Join(verifRoot, "harness", "vf_rt.go.tmpl"))
 	if err != nil {
@@ -124,7 +125,9 @@ func buildOverlay(pkgs []string) (map[string][]byte, error) {
 			return nil, fmt.Errorf("no harness files for package %s", p)
 		}
 		ov[filepath.Join(repoRoot, p, "zz_vf_rt.go")] = []byte(strings.Replace(string(tmpl), "PKGNAME", pkgName, 1))
-		hooked, err := injectHooks(p)
+	}
+	if len(hooks) > 0 {
+		hooked, err := injectHooks(hooks)
 		if err != nil {
 			return nil, err
 		}
@@ -210,7 +213,18 @@ func cmdCheck(args []string) {
 		os.Exit(2)
 	}
 
-	overlay, err := buildOverlay(pkgDirs)
+	hookSet := map[string]bool{}
+	var hookList []string
+	for _, h := range specs {
+		for _, hk := range h.Hooks {
+			if !hookSet[hk] {
+				hookSet[hk] = true
+				hookList = append(hookList, hk)
+			}
+		}
+	}
+	sort.Strings(hookList)
+	overlay, err := buildOverlay(pkgDirs, hookList)
 	if err != nil {
 		fail("overlay: " + err.Error())
 	}
@@ -378,7 +392,7 @@ func cmdCheck(args []string) {
 				covers[k] += v
 			}
 			for _, s := range j.res.OKSamples {
-				rf := &ReplayFile{Property: prop, Harness: id, Pkg: a.spec.Pkg, Func: a.spec.Func, Thorough: *tier == "thorough", Expect: "ok", Model: s.Model, Observe: s.Observe}
+				rf := &ReplayFile{Property: prop, Harness: id, Pkg: a.spec.Pkg, Func: a.spec.Func, Thorough: *tier == "thorough", Expect: "ok", Model: s.Model, Observe: s.Observe, Hooks: hookList}
 				okSamples = append(okSamples, rf)
 			}
 			for _, ev2 := range j.res.Events {
@@ -389,7 +403,7 @@ func cmdCheck(args []string) {
 				case "inconclusive":
 					ev.Inconclusive = append(ev.Inconclusive, fmt.Sprintf("%s %v: %s", id, j.prefix, p.Label))
 				case "violation", "known":
-					rf := &ReplayFile{Property: prop, Harness: id, Pkg: a.spec.Pkg, Func: a.spec.Func, Thorough: *tier == "thorough", Expect: p.Label, Site: p.Site, Model: p.Model}
+					rf := &ReplayFile{Property: prop, Harness: id, Pkg: a.spec.Pkg, Func: a.spec.Func, Thorough: *tier == "thorough", Expect: p.Label, Site: p.Site, Model: p.Model, Hooks: hookList}
 					fid := ""
 					if p.Kind == "known" {
 						fid = p.Known
@@ -713,7 +727,7 @@ func cmdReplay(path string) int {
 		fmt.Println("cannot read replay file:", err)
 		return 2
 	}
-	overlay, err := buildOverlay([]string{rf.Pkg})
+	overlay, err := buildOverlay([]string{rf.Pkg}, rf.Hooks)
 	if err != nil {
 		fmt.Println("overlay:", err)
 		return 2
